@@ -31,7 +31,7 @@ import (
 
 // Transcode transcodes the given journal to beancount.
 func Transcode(w io.Writer, j *journal.Journal, c *model.Commodity) error {
-	if _, err := fmt.Fprintf(w, `option "operating_currency" "%s"`, c.Name()); err != nil {
+	if _, err := fmt.Fprintf(w, `option "operating_currency" "%s"`, stripNonAlphanum(c)); err != nil {
 		return err
 	}
 	if _, err := io.WriteString(w, "\n\n"); err != nil {
